@@ -99,12 +99,15 @@ func cloneMat[S any](m [][]S) [][]S {
 }
 
 func c09Rvole(c *Ctx) {
-	c09RvoleCurve(c, "k256", cK256, 1)
-	c09RvoleCurve(c, "p256", cP256, 2)
-	c09RvoleCurve(c, "ed25519", cEd25519, 3)
-	if c.Thorough() {
-		c09RvoleCurve(c, "pallas", cPallas, 4)
+	jobs := []func(*Ctx){
+		func(c *Ctx) { c09RvoleCurve(c, "k256", cK256, 1) },
+		func(c *Ctx) { c09RvoleCurve(c, "p256", cP256, 2) },
+		func(c *Ctx) { c09RvoleCurve(c, "ed25519", cEd25519, 3) },
 	}
+	if c.Thorough() {
+		jobs = append(jobs, func(c *Ctx) { c09RvoleCurve(c, "pallas", cPallas, 4) })
+	}
+	c09Parallel(c, jobs)
 }
 
 func c09RvoleCurve[P curves.Point[P, F, S], F algebra.FiniteFieldElement[F], S algebra.PrimeFieldElement[S]](c *Ctx, name string, curve curves.Curve[P, F, S], stream uint64) {
@@ -208,7 +211,6 @@ func c09RvoleBbotSetup[P curves.Point[P, F, S], F algebra.FiniteFieldElement[F],
 	}
 	f := curve.ScalarField()
 	a := rvInputs(r, f, l, kind)
-	trA := cA.Transcript().Clone()
 	r3, cOut, err := alice.Round3(r2, a)
 	if err != nil {
 		return nil, c09ErrClass(err) + "@3"
@@ -220,7 +222,8 @@ func c09RvoleBbotSetup[P curves.Point[P, F, S], F algebra.FiniteFieldElement[F],
 	run.g = privField(bob, "g").Interface().([]S)
 	run.beta = privField(bob, "beta").Interface().([]byte)
 	run.alpha = privField(alice, "alpha").Interface().([][2][]S)
-	run.thetaHonest = rvTheta(trA, run.prefix, f, r3.ATilde, l, run.rho)
+	// honest theta: Alice and Bob derive it from the same transcript state and the same aTilde
+	run.thetaHonest = rvTheta(run.bobSnap.Clone(), run.prefix, f, r3.ATilde, l, run.rho)
 	run.bobFinal = func(at [][]S, eta []S, mu []byte) ([]S, error) {
 		return bob.Round4(&rvole_bbot.Round3P2P[P, S]{ATilde: at, Eta: eta, Mu: mu})
 	}
@@ -387,8 +390,10 @@ func c09RvoleFaults[S algebra.PrimeFieldElement[S]](c *Ctx, r *Rng, run *rvRun[S
 			c.Emit(fmt.Sprintf("rvole %s %s %s %d %s", run.variant, run.curve, p, run.l, scalarsHex(run.a)), out)
 		}
 		// model-decided line for a sample of the alterations and for the honest message
-		if deep && (flt.field == "none" || fi%4 == 0 || flt.field == "Eta") && (chkBudget > 0 || flt.field == "none") {
-			chkBudget--
+		if deep && (flt.field == "none" || flt.field == "Eta" || flt.field == "Mu" && fi%2 == 0 || fi%4 == 0 && chkBudget > 0) {
+			if flt.field == "ATilde" {
+				chkBudget--
+			}
 			thetaP := rvTheta(run.bobSnap.Clone(), run.prefix, f, at, run.l, run.rho)
 			out := scalarsHex(run.c) + ";" + res
 			if res == "ok" {
